@@ -395,6 +395,20 @@ def exhaustive_local_cut3_cases(thorough=False, per_program=6):
             queries.append([name, [V('Q0'), V('Q1'), V('Q2'), V('Q3')]])
         yield {'clauses': clauses + copy.deepcopy(EXH_FACTS), 'queries': queries, 'origin': 'exhaustive-local-cut3'}
 
+def check_outer_commit(case, io):
+    """intrinsic oracle on the implementation alone for the programs of exhaustive_local_cut3_cases: the outermost construct of every
+    body is an if-then-else whose else branch is  D = else  (or a negation, which leaves D unbound), so the answers of the first clause
+    never contain  D = else  next to an answer with another D: an if-then-else runs its then side or its else branch, never both."""
+    if case.get('origin') != 'exhaustive-local-cut3' or not isinstance(io, dict) or 'queries' not in io:
+        return None
+    for q, iq in zip(case['queries'], io['queries']):
+        if iq['end'] != 'done':
+            continue
+        ds = [a[3] for a in iq['answers'] if a[:2] != [[0, 'second'], [0, 'clause']]]
+        if [0, 'else'] in ds and any(x != [0, 'else'] for x in ds):
+            return 'query %s: answers from the then side AND from the else branch of the same if-then-else' % q[0]
+    return None
+
 def local_cut3_body(rng, vars_, leaves):
     """a random member of the same family with arbitrary leaves / markers (for the random programs)"""
     lf = lambda: call(rng.choice(leaves), V(rng.choice(vars_))) if leaves and rng.random() < 0.8 else rng.choice([['true'], ['fail']])
